@@ -512,7 +512,7 @@ mod k3 {
             let s1 = gen_shape(r, k1, lat); let mut s2 = gen_shape(r, k2, lat);
             let reach = s1.size() + s2.size();
             let u = gen_unit(r, lat);
-            let dist = if lat { *r.pick(&[0.0, 0.5, 1.0, 2.0, 4.0, 8.0]) } else { reach * r.uniform(0.0, 2.5) };
+            let dist = if lat { *r.pick(&[0.0, 1.0, 2.0, 4.0, 6.0, 8.0]) } else { reach * r.uniform(0.25, 2.5) };
             let mut p12 = if r.below(5) == 0 { Isometry::identity() } else { d3::gen_iso(r, lat, 0.0) };
             if r.below(6) == 0 && k2 != "halfspace" { s2 = s2.shifted(&(u * dist)); p12.translation.vector = Vector::zeros(); } else { p12.translation.vector = u * dist; }
             let reach = s1.size() + s2.size();
@@ -959,7 +959,7 @@ mod k2 {
             let s1 = gen_shape(r, k1, lat); let mut s2 = gen_shape(r, k2, lat);
             let reach = s1.size() + s2.size();
             let u = gen_unit(r, lat);
-            let dist = if lat { *r.pick(&[0.0, 0.5, 1.0, 2.0, 4.0, 8.0]) } else { reach * r.uniform(0.0, 2.5) };
+            let dist = if lat { *r.pick(&[0.0, 1.0, 2.0, 4.0, 6.0, 8.0]) } else { reach * r.uniform(0.25, 2.5) };
             let mut p12 = if r.below(5) == 0 { Isometry::identity() } else { d2::gen_iso(r, lat, 0.0) };
             if r.below(6) == 0 && k2 != "halfspace" { s2 = s2.shifted(&(u * dist)); p12.translation.vector = Vector::zeros(); } else { p12.translation.vector = u * dist; }
             let reach = s1.size() + s2.size();
